@@ -1,5 +1,6 @@
 import FlVerif.Op.Session
 import FlVerif.Props.C12
+import FlVerif.Lemmas.CodeSessionRestart
 
 /-! # C13 — Processing is history-free; restart and copy give clean independent engines -/
 
@@ -130,6 +131,52 @@ theorem restart_outputs_cleared (s : Sess α) (o : OutState α) (ho : o ∈ (res
 /-- toggling a flag (or editing a parameter) and restoring it leaves the engine exactly as it was -/
 theorem toggle_restore_noop (F : Fn α) (s : Sess α) (e' : EngineD α) :
     (Op.Session.step F (Op.Session.step F s (.reconfig e')).1 (.reconfig s.engine)).1.outs = s.outs := rfl
+
+/-! ## Tie A (code → model) for `Engine.restart` and `OutputVariable.clear`
+
+`restart` above is total: it leaves out `rule_block.reload_rules(self)`, which raises `RuntimeError` when a rule of
+the engine does not load – the restart then stops with the input values NaN and the output variables *not* cleared.
+`Op.Session.restartR` is the model with that step (`reload b`: what `reload_rules` does to the block `b`, tied on the
+rule objects by `C16.code_reloadRules`); `restart` is the case in which every block reloads to itself. -/
+
+/-- `restartR` with a `reload_rules` that returns and leaves every block as it is, is `restart` -/
+theorem restartR_eq_restart (reload : Block α → Except (Block α) (Block α)) (s : Sess α)
+    (h : ∀ b ∈ s.engine.blocks, reload b = .ok b) : restartR reload s = .ok (restart s) := by
+  unfold restartR restart
+  have hb : (setInputs s.engine (s.engine.inputs.map (fun _ => nan))).blocks = s.engine.blocks := rfl
+  simp only [hb]
+  rw [reloadBlocks_id reload s.engine.blocks [] h]
+  rfl
+
+/-- `OutputVariable.clear` as translated from the source = the model `Op.clear` (the value goes through the clipping
+    setter), and the fuzzy output is emptied; from any state of the variable -/
+theorem code_clear (c : CascadeCfg Rat) (σ0 : Gen.Code.OutputVariable_clear.S) :
+    ∃ σ, Gen.Code.OutputVariable_clear.run c σ0 = .ok σ ∧
+      (⟨σ.self_value, σ.self_previous_value⟩ : OutState Rat) = Op.clear c ⟨σ0.self_value, σ0.self_previous_value⟩ ∧
+      σ.self_fuzzy = [] :=
+  Op.Session.code_clear c σ0
+
+/-- **Tie A (code → model).**  `Gen.Code.Engine_restart` is regenerated from the source of `Engine.restart` on every
+    run (translated with the state at a raise; `output_variable.clear()` is the generated definition above,
+    `input_variable.value = nan` the clipping setter `InVar.setValue`).  For every behaviour `reload` of
+    `reload_rules`, every list of input variables, rule blocks and output variables with their value / previous value:
+    when every `reload_rules` returns, the code returns with the inputs, blocks and output states of the model
+    `restartR`; when one raises, the code raises with the inputs NaN already, the blocks before the failing one
+    reloaded (the failing one as `reload_rules` left it), and no output variable cleared. -/
+theorem code_restart (reload : Block Rat → Except (Py.Err × Block Rat) (Block Rat)) (ins : List (InVar Rat))
+    (bls : List (Block Rat)) (ovs : List (OutVar Rat × OutState Rat)) :
+    match restartR (reloadModel reload) (sessOf ins bls ovs) with
+    | .ok s' => ∃ σ, Gen.Code.Engine_restart.run reload ins bls ovs {} = .ok σ ∧ σ.inputs = s'.engine.inputs ∧
+        σ.blocks = s'.engine.blocks ∧ σ.outs = s'.outs
+    | .error s' => ∃ err σ rest, Gen.Code.Engine_restart.run reload ins bls ovs {} = .error (err, σ) ∧
+        σ.inputs = s'.engine.inputs ∧ σ.blocks ++ σ.rule_block :: rest = s'.engine.blocks ∧ σ.outs = [] ∧
+        s'.outs = ovs.map (·.2) :=
+  Op.Session.code_restart reload ins bls ovs
+
+/-- the failure case exists: a block whose `reload_rules` raises leaves the output variables as they were -/
+example : ∃ s', restartR (α := ℚ) (fun b => .error b)
+    { engine := { inputs := [], outputs := [], blocks := [⟨true, none, none, none, .general, []⟩] },
+      outs := [⟨[.fin 1], .fin 2⟩] } = .error s' ∧ s'.outs = [⟨[.fin 1], .fin 2⟩] := ⟨_, rfl, rfl⟩
 
 /-! ## non-vacuity -/
 example : (restart ({ engine := { inputs := [], outputs := [], blocks := [] }, outs := [] } : Sess ℚ)).outs = [] := rfl
